@@ -84,7 +84,7 @@ Theorem C01_type_hole_witnesses :
   hole_ok HZ (field_schema g0 {| cf_name := L "pair"; cf_ty := QTuple [T2 "HashMap" (T0 "String") (T0 "i32"); T0 "bool"]; cf_serde := []; cf_val := None |}) = true.
 Proof. exact type_hole_witnesses. Qed.
 
-(* ---- skeleton (token level, plain-mode types.ts interface template) ---- *)
+(* ---- skeleton (token level, plain-mode types.ts interface template; keys bare or quoted by ts_key) ---- *)
 Theorem C01_skeleton_interface_partial : forall name ms rest,
   is_binding_name name = true -> Forall good_member ms ->
   p_item (interface_toks name ms ++ rest) = Some (IInterface name [] None (map member_ast ms) [], rest) /\
@@ -111,8 +111,9 @@ Proof. vm_compute. repeat split. Qed.
 Example C01_ex_message : escape_js (L "say ""hi"" \ ok") = L "say \""hi\"" \\ ok".
 Proof. vm_compute. reflexivity. Qed.
 Example C01_ex_good_member :
-  good_member {| gm_key := L "userId"; gm_opt := true; gm_toks := [KId (L "number")]; gm_ty := TyRef [L "number"] [] |}.
-Proof. apply good_leaf; reflexivity. Qed.
+  good_member {| gm_key := GId (L "userId"); gm_opt := true; gm_toks := [KId (L "number")]; gm_ty := TyRef [L "number"] [] |} /\
+  good_member {| gm_key := GStr (L "full-name"); gm_opt := false; gm_toks := [KId (L "string")]; gm_ty := TyRef [L "string"] [] |}.
+Proof. split; apply good_leaf; reflexivity. Qed.
 Example C01_ex_skeleton : c01_ok (text (interface_chunks g0 ex_struct)) = true /\ bad_holes (interface_chunks g0 ex_struct) = [] /\
   lexed (interface_chunks g0 ex_struct) = toks_of (interface_chunks g0 ex_struct).
 Proof. vm_compute. repeat split. Qed.
